@@ -49,7 +49,7 @@ SKEWED = ('cubicF', 'cubicF', 'cubicI', 'cubicI', 'rhomb', 'rhomb', 'hex', 'tric
 
 def cases(tier, seed):
     n = 48 if tier == 'quick' else 640
-    return [{'seed': seed, 'idx': i, 'hashseed': i % 5, 'mode': 'long' if i % 8 == 3 else ('dense' if i % 8 == 6 else 'std')} for i in range(n)]
+    return [{'seed': seed, 'idx': i, 'hashseed': i % 5, 'mode': 'long' if i % 8 == 3 else ('dense' if i % 8 == 6 else ('multi' if i % 8 == 1 else 'std'))} for i in range(n)]
 
 
 # ---------------------------------------------------------------------------------------------
@@ -74,7 +74,7 @@ def long_setup(rng):
     """two general-position atoms close to opposite faces of a skewed cell, long cut-off, pairs only"""
     from onsager import crystal
     last = None
-    for t in range(12):
+    for t in range(15):
         kind = SKEWED[int(rng.integers(len(SKEWED)))]
         latt = gen.lattice(kind, rng)
         if abs(np.linalg.det(latt)) < 0.2: continue
@@ -92,40 +92,41 @@ def long_setup(rng):
         allowed = set(range(crys.Nchem))
         amin = float(np.min(np.linalg.norm(crys.lattice, axis=0)))
         dists = geo.pair_distances(allowed, 4.0 * amin + 0.1)
-        for s in range(20):
-            c = float(rng.uniform(2.6, 4.0)) * amin
-            if safe(dists, c): break
-        else:
-            continue
-        desc = {'kind': kind + ':facehug', 'lattice': crys.lattice, 'basis': crys.basis, 'cutoff': c, 'order': 2, 'exclude': []}
-        last = (crys, geo, c, desc)
-        if beyond_nmax(geo, c, allowed):
-            return last
+        cands = [c for c in (float(rng.uniform(2.6, 4.0)) * amin for _ in range(8)) if safe(dists, c)]
+        if not cands: continue
+        for c in cands:
+            desc = {'kind': kind + ':facehug', 'lattice': crys.lattice, 'basis': crys.basis, 'cutoff': c, 'order': 2, 'exclude': []}
+            last = (crys, geo, c, desc)
+            if beyond_nmax(geo, c, allowed):
+                return last
     return last
 
 
-DENSE = ('sc', 'square', 'bcc', 'tria', 'rect', 'tet', 'fcc', 'honey', 'hcp', 'b2')
+DENSE2 = ('square', 'tria', 'rect')           # third shell, order 3-4: collinear triples / parallelograms
+DENSE3 = ('sc', 'bcc', 'tet', 'fcc', 'honey', 'hcp', 'b2', 'kagome', 'lieb')
 
 
-def std_setup(rng, dense=False):
+def std_setup(rng, dense=False, multi=False):
     r = rng.uniform()
-    if r < 0.2 or dense:
-        names = DENSE if dense else gen.NAMED
+    if (r < 0.2 and not multi) or dense:
+        names = (DENSE2 if dense == 2 else DENSE3) if dense else gen.NAMED
         name = names[int(rng.integers(len(names)))]
         crys, _, _ = gen.named(name)
         kind = name
     else:
-        nchem = int(rng.integers(1, 4))
-        crys, spec = gen.rand_crystal(rng, nchem=nchem, maxatoms=6)
+        for t in range(20):
+            nchem = int(rng.integers(2, 4)) if multi else int(rng.integers(1, 4))
+            crys, spec = gen.rand_crystal(rng, nchem=nchem, maxatoms=6, norbits=int(rng.integers(2, 4)) if multi else None)
+            if crys.Nchem > 1 or not multi: break
         kind = spec['kind']
     geo = rc.Geometry(crys)
     exclude = []
-    if crys.Nchem > 1 and rng.uniform() < 0.4:
+    if crys.Nchem > 1 and (multi or rng.uniform() < 0.4):
         k = int(rng.integers(1, crys.Nchem))
         exclude = sorted(int(x) for x in rng.choice(crys.Nchem, size=k, replace=False))
     allowed = set(c for c in range(crys.Nchem) if c not in exclude)
     order = int(rng.choice([3, 3, 4])) if dense else int(rng.choice([1, 2, 2, 3, 3, 3, 4, 4]))
-    cutoff = choose_cutoff(geo, allowed, order, rng, kmin=2 if dense else 1)
+    cutoff = choose_cutoff(geo, allowed, order, rng, kmin=(3 if dense == 2 else 2) if dense else 1)
     desc = {'kind': kind, 'lattice': crys.lattice, 'basis': crys.basis, 'cutoff': cutoff, 'order': order, 'exclude': exclude}
     return crys, geo, cutoff, desc
 
@@ -316,7 +317,7 @@ def run_case(case):
             return mon.result(sample=None, nontrivial=False)
         mon.tag('longcutoff')
     else:
-        setup = std_setup(rng, dense=case.get('mode') == 'dense')
+        setup = std_setup(rng, dense=(2 if (case['idx'] // 8) % 2 == 0 else 3) if case.get('mode') == 'dense' else 0, multi=case.get('mode') == 'multi')
     crys, geo, cutoff, desc = setup
     desc['hashseed'] = case.get('hashseed')
     order, exclude = desc['order'], desc['exclude']
